@@ -638,3 +638,100 @@ Proof.
   exists j, (restored c). repeat split; try assumption; [intros f Hf; apply restored_other; exact Hf | apply restored_typed].
 Qed.
 End Statements.
+
+(* ==================== Round 2: the length cut of BLOB / VARCHAR defaults, repeated column names ==================== *)
+Lemma take_take : forall (A : Type) z (l : list A), (0 <= z)%Z -> take z (take z l) = take z l.
+Proof.
+  intros A z l Hz. unfold take. rewrite firstn_length.
+  rewrite firstn_firstn. f_equal. lia.
+Qed.
+
+Lemma cut_cut : forall (A : Type) len (l l' : list A),
+  len_ok len = true -> cut len l = Some l' -> cut len l' = Some l'.
+Proof.
+  intros A len l l' Hl H. destruct len as [a|]; [|discriminate]. destruct a; try discriminate.
+  - cbn [cut] in *. inversion H; subst. reflexivity.
+  - cbn [cut len_ok] in *. apply Z.leb_le in Hl.
+    destruct (Z.eqb z 0) eqn:E0; [inversion H; subst; reflexivity|].
+    destruct (Z.ltb z 0) eqn:E1; [apply Z.ltb_lt in E1; lia|].
+    inversion H; subst. rewrite take_take by exact Hl. reflexivity.
+Qed.
+
+Lemma option_map_some : forall (A B : Type) (f : A -> B) o y, option_map f o = Some y -> exists x, o = Some x /\ y = f x.
+Proof. intros A B f o y H. destruct o as [x|]; [|discriminate]. inversion H. exists x. split; reflexivity. Qed.
+
+Lemma text_cast_idempotent : forall m len p s e v r,
+  len_ok len = true -> text_cast m (len, p, s, e) v = Some (Ok r) -> text_cast m (len, p, s, e) r = Some (Ok r).
+Proof.
+  intros m len p s e v r Hl H. unfold text_cast in *.
+  destruct (str_eqb m m_blob) eqn:Eb.
+  - assert (HB : exists b b0, cut len b0 = Some b /\ r = PA (ABytes b)).
+    { destruct v as [a|l].
+      - destruct a; cbn [str_of] in H;
+        repeat match type of H with
+        | (if ?c then _ else _) = _ => destruct c; [|discriminate]
+        | option_map _ _ = Some _ => apply option_map_some in H; destruct H as [x [H1 H2]]; inversion H2; subst; eexists; eexists; split; [exact H1|reflexivity]
+        end; try discriminate.
+      - cbn [str_of] in H. discriminate. }
+    destruct HB as [b [b0 [Hc ->]]]. rewrite (cut_cut _ len b0 b Hl Hc). reflexivity.
+  - destruct (str_eqb m m_varchar) eqn:Ev; [|discriminate].
+    assert (HB : exists b b0, cut len b0 = Some b /\ r = PA (AText b)).
+    { destruct v as [a|l].
+      - destruct a; cbn [str_of] in H;
+        repeat match type of H with
+        | match ?c with Some _ => _ | None => _ end = _ => destruct c; [|discriminate]
+        | option_map _ _ = Some _ => apply option_map_some in H; destruct H as [x [H1 H2]]; inversion H2; subst; eexists; eexists; split; [exact H1|reflexivity]
+        end; try discriminate.
+      - cbn [str_of] in H. discriminate. }
+    destruct HB as [b [b0 [Hc ->]]]. cbn [str_of]. rewrite (cut_cut _ len b0 b Hl Hc). reflexivity.
+Qed.
+
+Lemma cast_members_typed : forall m, (str_eqb m m_blob || str_eqb m m_varchar) = true -> str_eqb m missing_member = false.
+Proof.
+  intros m H. apply orb_true_iff in H. destruct H as [H|H]; apply str_eqb_eq in H; subst m; vm_compute; reflexivity.
+Qed.
+
+Lemma text_cast_member : forall m q v r, text_cast m q v = Some r -> (str_eqb m m_blob || str_eqb m m_varchar) = true.
+Proof.
+  intros m [[[len p] s] e] v r H. unfold text_cast in H.
+  destruct (str_eqb m m_blob); [reflexivity|]. destruct (str_eqb m m_varchar); [reflexivity|discriminate].
+Qed.
+
+Section Cut.
+Variable parse : str -> params -> pv -> result pv.
+(* parse behaves as parse_bytes / parse_varchar do wherever the sub-model speaks *)
+Definition agrees_with_text_cast : Prop := forall m q v r, text_cast m q v = Some r -> parse m q v = r.
+
+Lemma cast_default_ok : forall c m D,
+  agrees_with_text_cast ->
+  c_type c = PA (ATy m) -> len_ok (c_length c) = true ->
+  text_cast m (col_params c) D = Some (Ok (c_default c)) ->
+  default_ok parse c (c_default c).
+Proof.
+  intros c m D Hag Ht Hl Hc. unfold default_ok, untyped. rewrite Ht.
+  rewrite (cast_members_typed m (text_cast_member _ _ _ _ Hc)).
+  split; [intros _; reflexivity|]. intros _ m' Hm'. inversion Hm'; subst m'.
+  apply Hag. unfold col_params in *. apply (text_cast_idempotent m _ _ _ _ D); assumption.
+Qed.
+End Cut.
+
+Lemma negative_length_not_fixed :
+  exists q v r r', text_cast m_blob q v = Some (Ok r) /\ text_cast m_blob q r = Some (Ok r') /\ r <> r'.
+Proof.
+  exists (PA (AInt (-1)), PNone, PNone, PNone), (PA (ABytes [97; 98; 99]%N)), (PA (ABytes [97; 98]%N)), (PA (ABytes [97]%N)).
+  split; [vm_compute; reflexivity|]. split; [vm_compute; reflexivity|]. discriminate.
+Qed.
+
+Section Cols.
+Variable parse : str -> params -> pv -> result pv.
+Lemma schema_round_trip_keeps_columns : forall fresh s s',
+  Forall (persistable parse) (s_columns s) ->
+  from_dict parse fresh (to_dict s) = Ok s' ->
+  List.length (s_columns s') = List.length (s_columns s) /\
+  forall f, f <> FType -> map (get f) (s_columns s') = map (get f) (s_columns s).
+Proof.
+  intros fresh s s' H E. rewrite (from_dict_to_dict parse fresh s H) in E. inversion E; subst s'.
+  cbn [s_columns]. split; [apply map_length|].
+  intros f Hf. rewrite map_map. apply map_ext. intros c. apply restored_other. exact Hf.
+Qed.
+End Cols.
